@@ -20,7 +20,7 @@ RULES = {
           "no store through type(self)/a base); the settings are stored only by their own accessors and set_render_method (who-may-write)",
     "R3": "getters follow the MRO: getattr(self, '_jpeg_quality', -1), getattr(self, '_read_from_file', True), self._render_method; "
           "at render time the effective method is `(method or self._render_method).lower()` (per-call override first, "
-          "case-normalised as a whole) in every graphics renderer; shared with C09.R5: ImageIterator never rebinds the style arguments frames are rendered with; every comparison with LINES / WHOLE / ANIM in a renderer uses the effective method, never the per-call `method` alone",
+          "case-normalised as a whole) in every graphics renderer; shared with C09.R5: ImageIterator never rebinds the style arguments frames are rendered with; every comparison with LINES / WHOLE / ANIM in a renderer uses the effective method, never the per-call `method` alone; the effective render method is read by the renderers only (no load of ._render_method, no programmatic method= override, in widget code either)",
     "R4": "class-only settings are read-only on instances: the instance-side forced_support / native_anim_max_bytes are "
           "ClassProperty objects built with a getter only; the metaclass setters validate before storing",
     "R5": "native_anim_max_bytes is one global cell: all accessors read/write __class__._native_anim_max_bytes on the metaclass, "
